@@ -451,5 +451,180 @@ theorem text_priced_register (cfg : Time.TsCfg) (st st' : Settings) (text : List
       r.total.units * C07b.E28 = C07b.valueSum (C07b.rcache lk tgt db txns) tgt (C07b.pairsOf txns) k) :=
   loaded_priced_register st st' ts (loaded_of_text cfg st st' text ts hload) txns hsel db tgt lk hlk es h
 
+/-! ## 5. C10 — the equity export re-loads as TEXT
+
+`C10.equity_reparse` / `equity_carries` are stated for the parse trees `EqTxn.toRaw` the generated text denotes.
+Here they are lifted to the text itself: the text `Tackler.equityText` writes for an export of transactions loaded
+from text is accepted by `loadText` (`string_to_txns`), the loaded transactions are the generated ones, and their
+balance carries the selected balances of the source.
+
+The print/parse round trip is C06's, line by line (`Lemmas/E2Eb.lean` §2, §3); its well-formedness hypotheses are
+discharged for equity transactions (`export_wf`): account and commodity names are those of postings loaded from
+text, amounts are own sums of a balance (representable), the description is built from a commodity name and a uuid,
+the timestamp is that of a loaded transaction.  What stays explicit:
+* `C06.CfgOK cfg` for the *source* load — the journal zone is a fixed offset of whole minutes, as in C06's
+  `roundtrip_text`: otherwise a loaded timestamp may carry an offset with seconds, which `rfc_3339` prints but the
+  grammar does not read back (finding F13);
+* the two configuration parameters that are printed verbatim: the equity account is a valid account name
+  (`AcctLex eqa`) and the metadata comment texts `md` (a parameter of the model: hashes, filter descriptions)
+  are single lines;
+* `C10.Lax` for the settings of the re-load (lax, no audit, empty commodity permitted), as in `C10.equity_reparse`. -/
+
+/-- every transaction loaded from a text under a fixed-offset journal zone satisfies C06's `WF` (what the export can
+    print re-parsably): `C06.parseJournal_rawLex` + `C06.accept_wf` -/
+theorem text_wf (cfg : Time.TsCfg) (hcfg : C06.CfgOK cfg) (st st' : Settings) (text : List Char) (ts : List Txn)
+    (h : loadText cfg st text = .ok (ts, st')) : ∀ t ∈ ts, C06.WF div0 t := by
+  obtain ⟨rs, acc, hp, _, _, hacc, rfl, _⟩ := load_inv cfg st st' text ts h
+  obtain ⟨_, hlex⟩ := C06.parseJournal_rawLex cfg hcfg text rs hp
+  intro t ht
+  obtain ⟨r, hr, s1, s2, hf⟩ := mapMS_ok acceptTxn rs st st' acc hacc t ((mem_sortTxns acc t).mp ht)
+  exact C06.accept_wf div0 s1 s2 r t hf (hlex r hr)
+    (fun _ _ _ => ⟨by simp [div0, Dec.zero], by simp [div0, Dec.zero], by simp [div0, Dec.zero]⟩)
+
+/-- … and so does every transaction loaded from a list of file texts -/
+theorem files_wf (cfg : Time.TsCfg) (hcfg : C06.CfgOK cfg) (st st' : Settings) (files : List (List Char)) (ts : List Txn)
+    (h : loadFiles cfg st files = .ok (ts, st')) : ∀ t ∈ ts, C06.WF div0 t := by
+  obtain ⟨rss, acc, hrss, _, hacc, rfl⟩ := files_inv cfg st st' files ts h
+  have hlex : ∀ r ∈ rss.flatten, C06.RawLex r := by
+    intro r hr
+    obtain ⟨rs, hrs, hrr⟩ := List.mem_flatten.mp hr
+    have hm : some rs ∈ files.map (parseJournal cfg) := by rw [hrss]; exact List.mem_map.mpr ⟨rs, hrs, rfl⟩
+    obtain ⟨f, _, hf⟩ := List.mem_map.mp hm
+    exact (C06.parseJournal_rawLex cfg hcfg f rs hf).2 r hrr
+  intro t ht
+  obtain ⟨r, hr, s1, s2, hf⟩ := mapMS_ok acceptTxn rss.flatten st st' acc hacc t ((mem_sortTxns acc t).mp ht)
+  exact C06.accept_wf div0 s1 s2 r t hf (hlex r hr)
+    (fun _ _ _ => ⟨by simp [div0, Dec.zero], by simp [div0, Dec.zero], by simp [div0, Dec.zero]⟩)
+
+/-- a successful load keeps the switches: lax settings stay lax -/
+theorem loaded_lax (st st' : Settings) (ts : List Txn) (hl : Loaded st ts st') (hlax : C10.Lax st) : C10.Lax st' := by
+  obtain ⟨rs, acc, _, hacc, _⟩ := hl
+  have hf := (C12.acceptJournal_grow st rs acc st' hacc).1.flags
+  simp only [C12.Flags, Prod.mk.injEq] at hf
+  obtain ⟨h1, h2, h3⟩ := hlax
+  exact ⟨hf.1.trans h1, hf.2.1.trans h2, hf.2.2.trans h3⟩
+
+/-- settings built from a configuration with strict and audit mode off and the empty commodity permitted are `Lax`,
+    whatever the charts -/
+theorem ofConfig_lax (accts : List Path) (comms tags : List String) :
+    C10.Lax (Settings.ofConfig false false true accts comms tags) := by
+  obtain ⟨h1, h2, h3, _⟩ := C12.ofConfig_strict false false true accts comms tags
+  exact ⟨h1, h2, h3⟩
+
+/-- **C10 end to end — `loaded_equity_text`.**  The equity export over any selection `txns` of transactions loaded
+    from text (each satisfying `C06.WF`: see `text_wf`), with a valid equity account name and one-line metadata
+    comments, whenever the exporter answers with `out`:
+    * (text) the exporter's text exists: `equityText out = some s`;
+    * (parse) if something was generated, the journal grammar — with any journal zone — maps that text to exactly
+      the parse trees `EqTxn.toRaw` of the generated transactions, in order;
+    * (re-load) from any lax settings `s1`, `string_to_txns` (`loadText`) accepts the text; the loaded list is the
+      sorted list of the generated transactions `C10.toTxn` — a permutation of them, one per generated
+      transaction, i.e. one per commodity with a selected non-zero row (`loaded_equity`, shape clause) —, each
+      `C01.Balanced`; the settings stay lax;
+    * (carries) if the equity account is not itself selected, every selected non-zero (commodity, account) has in
+      the re-loaded text the same own sum as in the source, which is the figure its balance row shows. -/
+theorem loaded_equity_text (st st' : Settings) (ts : List Txn) (hl : Loaded st ts st')
+    (hwf : ∀ t ∈ ts, C06.WF div0 t)
+    (txns : List Txn) (hsel : ∀ t ∈ txns, t ∈ ts)
+    (sb : Settings) (acc : Option (Path → Bool)) (eqa : Path) (md : List String) (out : List EqTxn)
+    (he : equityExport sb acc eqa md txns = .ok out)
+    (heqa : AcctLex eqa) (hmd : ∀ c ∈ md, LineText c.toList) :
+    ∃ s, equityText out = some s ∧
+      (out ≠ [] → ∀ cfg', parseJournal cfg' s.toList = some (out.map EqTxn.toRaw)) ∧
+      (out ≠ [] → ∀ cfg' s1, C10.Lax s1 →
+        ∃ ts' s2, loadText cfg' s1 s.toList = .ok (ts', s2) ∧ C10.Lax s2 ∧
+          ts' = sortTxns (out.map C10.toTxn) ∧ ts'.Perm (out.map C10.toTxn) ∧ ts'.length = out.length ∧
+          (∀ t ∈ ts', C01.Balanced t) ∧
+          (∀ all, balance sb (postsOf txns) = .ok all → (∀ r ∈ C10.selRows acc all, r.acct ≠ eqa) →
+            ∀ r ∈ C10.selRows acc all,
+              C10.ownSpec (postsOf ts') r.key = C10.ownSpec (postsOf txns) r.key ∧
+              r.own.units = C10.ownSpec (postsOf txns) r.key)) := by
+  have hpw := loaded_postsWF_sel st st' ts hl txns hsel
+  have hw := export_wf sb acc eqa md txns out (fun t ht => hwf t (hsel t ht)) hpw he heqa hmd
+  obtain ⟨s, hs⟩ := equityText_some out (fun t ht => (hw t ht).ts)
+  have hchars := equityText_chars out s hs
+  obtain ⟨_, haccepts, hcarries⟩ := loaded_equity st st' ts hl txns hsel sb acc eqa md out he
+  refine ⟨s, hs, ?_, ?_⟩
+  · intro hne cfg'
+    rw [hchars]
+    exact parseJournal_eqChars cfg' out hne hw
+  · intro hne cfg' s1 hl1
+    obtain ⟨s2, hload, hl2⟩ := (C10.equity_reparse sb acc eqa md txns out he s1 hl1).2 hne
+    have hperm : (sortTxns (out.map C10.toTxn)).Perm (out.map C10.toTxn) := sortTxns_perm _
+    refine ⟨_, s2, ?_, hl2, rfl, hperm, by rw [hperm.length_eq, List.length_map], ?_, ?_⟩
+    · unfold loadText
+      rw [hchars, parseJournal_eqChars cfg' out hne hw]
+      exact hload
+    · intro t ht
+      obtain ⟨e, hem, rfl⟩ := List.mem_map.mp (hperm.mem_iff.mp ht)
+      obtain ⟨_, _, _, hb⟩ := haccepts s1 hl1 e hem
+      exact hb
+    · intro all hall hne' r hr
+      exact hcarries all hall hne' s1 s2 _ hl1 hload r hr
+
+/-- **C10 end to end — `text_equity_text`.**  `loaded_equity_text` for a text loaded under a fixed-offset journal
+    zone of whole minutes (`C06.CfgOK`): the text of an equity export over any selection of its transactions parses
+    to the generated transactions, re-loads from any lax settings, and carries the selected balances. -/
+theorem text_equity_text (cfg : Time.TsCfg) (hcfg : C06.CfgOK cfg) (st st' : Settings) (text : List Char)
+    (ts : List Txn) (h : loadText cfg st text = .ok (ts, st'))
+    (txns : List Txn) (hsel : ∀ t ∈ txns, t ∈ ts)
+    (sb : Settings) (acc : Option (Path → Bool)) (eqa : Path) (md : List String) (out : List EqTxn)
+    (he : equityExport sb acc eqa md txns = .ok out)
+    (heqa : AcctLex eqa) (hmd : ∀ c ∈ md, LineText c.toList) :
+    ∃ s, equityText out = some s ∧
+      (out ≠ [] → ∀ cfg', parseJournal cfg' s.toList = some (out.map EqTxn.toRaw)) ∧
+      (out ≠ [] → ∀ cfg' s1, C10.Lax s1 →
+        ∃ ts' s2, loadText cfg' s1 s.toList = .ok (ts', s2) ∧ C10.Lax s2 ∧
+          ts' = sortTxns (out.map C10.toTxn) ∧ ts'.Perm (out.map C10.toTxn) ∧ ts'.length = out.length ∧
+          (∀ t ∈ ts', C01.Balanced t) ∧
+          (∀ all, balance sb (postsOf txns) = .ok all → (∀ r ∈ C10.selRows acc all, r.acct ≠ eqa) →
+            ∀ r ∈ C10.selRows acc all,
+              C10.ownSpec (postsOf ts') r.key = C10.ownSpec (postsOf txns) r.key ∧
+              r.own.units = C10.ownSpec (postsOf txns) r.key)) :=
+  loaded_equity_text st st' ts (loaded_of_text cfg st st' text ts h) (text_wf cfg hcfg st st' text ts h)
+    txns hsel sb acc eqa md out he heqa hmd
+
+/-- **C10 end to end — `files_equity_text`**: the same for a list of file texts -/
+theorem files_equity_text (cfg : Time.TsCfg) (hcfg : C06.CfgOK cfg) (st st' : Settings) (files : List (List Char))
+    (ts : List Txn) (h : loadFiles cfg st files = .ok (ts, st'))
+    (txns : List Txn) (hsel : ∀ t ∈ txns, t ∈ ts)
+    (sb : Settings) (acc : Option (Path → Bool)) (eqa : Path) (md : List String) (out : List EqTxn)
+    (he : equityExport sb acc eqa md txns = .ok out)
+    (heqa : AcctLex eqa) (hmd : ∀ c ∈ md, LineText c.toList) :
+    ∃ s, equityText out = some s ∧
+      (out ≠ [] → ∀ cfg', parseJournal cfg' s.toList = some (out.map EqTxn.toRaw)) ∧
+      (out ≠ [] → ∀ cfg' s1, C10.Lax s1 →
+        ∃ ts' s2, loadText cfg' s1 s.toList = .ok (ts', s2) ∧ C10.Lax s2 ∧
+          ts' = sortTxns (out.map C10.toTxn) ∧ ts'.Perm (out.map C10.toTxn) ∧ ts'.length = out.length ∧
+          (∀ t ∈ ts', C01.Balanced t) ∧
+          (∀ all, balance sb (postsOf txns) = .ok all → (∀ r ∈ C10.selRows acc all, r.acct ≠ eqa) →
+            ∀ r ∈ C10.selRows acc all,
+              C10.ownSpec (postsOf ts') r.key = C10.ownSpec (postsOf txns) r.key ∧
+              r.own.units = C10.ownSpec (postsOf txns) r.key)) :=
+  loaded_equity_text st st' ts (loaded_of_files cfg st st' files ts h) (files_wf cfg hcfg st st' files ts h)
+    txns hsel sb acc eqa md out he heqa hmd
+
+/-- **text_equity_reloads**: the two re-loads the property names — the export text of a lax load is accepted from
+    the settings that load left behind (`st'`, appending the export to the running session) and from fresh settings
+    of a lax configuration with any charts (a new journal starting from the export), in both cases to the sorted
+    generated transactions. -/
+theorem text_equity_reloads (cfg : Time.TsCfg) (hcfg : C06.CfgOK cfg) (st st' : Settings) (text : List Char)
+    (ts : List Txn) (h : loadText cfg st text = .ok (ts, st')) (hlax : C10.Lax st)
+    (txns : List Txn) (hsel : ∀ t ∈ txns, t ∈ ts)
+    (sb : Settings) (acc : Option (Path → Bool)) (eqa : Path) (md : List String) (out : List EqTxn)
+    (he : equityExport sb acc eqa md txns = .ok out) (hne : out ≠ [])
+    (heqa : AcctLex eqa) (hmd : ∀ c ∈ md, LineText c.toList)
+    (cfg' : Time.TsCfg) (accts : List Path) (comms tags : List String) :
+    ∃ s, equityText out = some s ∧
+      (∃ s2, loadText cfg' st' s.toList = .ok (sortTxns (out.map C10.toTxn), s2)) ∧
+      (∃ s2, loadText cfg' (Settings.ofConfig false false true accts comms tags) s.toList
+                = .ok (sortTxns (out.map C10.toTxn), s2)) := by
+  obtain ⟨s, hs, _, hre⟩ := text_equity_text cfg hcfg st st' text ts h txns hsel sb acc eqa md out he heqa hmd
+  refine ⟨s, hs, ?_, ?_⟩
+  · obtain ⟨ts', s2, hl, _, rfl, _⟩ := hre hne cfg' st' (loaded_lax st st' ts (loaded_of_text cfg st st' text ts h) hlax)
+    exact ⟨s2, hl⟩
+  · obtain ⟨ts', s2, hl, _, rfl, _⟩ := hre hne cfg' _ (ofConfig_lax accts comms tags)
+    exact ⟨s2, hl⟩
+
 end E2E
 end Tackler
